@@ -24,6 +24,8 @@ Record obs := mkObs {
   ocnts : list (string * fcst);           (* per upstream: counted in-flight per instance, running total *)
   oqc : list (key * Z);                   (* quota of the global-count item of the stored conditions that have one *)
   osumc : list (string * Z);              (* recorded sum of the global-count item, per upstream *)
+  ocnts2 : list (string * fcst);          (* the second global-count flow control of every upstream (same acquires) *)
+  oother : Z;                             (* instance entries on flow controls nobody acquires on (expected 0) *)
 }.
 
 Record ctx := mkCtx {
@@ -48,6 +50,17 @@ Definition cnd_eqb (a b : cnd) : bool := ((fst a =? fst b) && String.eqb (snd a)
 Definition cnt_of (u i : string) (l : list (string * fcst)) : option Z :=
   match alookup String.eqb u l with Some f => alookup String.eqb i (fst f) | None => None end.
 
+Definition live_cnt_ok (c : ctx) (t : Z) (o : op) (before after : list (string * fcst)) : bool :=
+  forallb (fun q : string * fcst =>
+             forallb (fun e : string * Z =>
+                        if (is_live c t (fst e) && str_mem (fst q) (clisted c))%bool then
+                          match o with
+                          | Acquire u' i' _ => if (String.eqb (fst q) u' && String.eqb (fst e) i')%bool then true
+                                               else opt_eqb Z.eqb (cnt_of (fst q) (fst e) after) (Some (snd e))
+                          | _ => opt_eqb Z.eqb (cnt_of (fst q) (fst e) after) (Some (snd e))
+                          end
+                        else true) (fst (snd q))) before.
+
 Definition live_ok (c : ctx) (t : Z) (o : op) (b : obs) : bool :=
   (forallb (fun p : key * cnd =>
               let u := fst (fst p) in let i := snd (fst p) in
@@ -58,18 +71,14 @@ Definition live_ok (c : ctx) (t : Z) (o : op) (b : obs) : bool :=
                 | _ => opt_eqb cnd_eqb (alookup key_eqb (u, i) (oconds b)) (Some (snd p))
                 end
               else true) (oconds (cprev c))
-   && forallb (fun q : string * fcst =>
-                 forallb (fun e : string * Z =>
-                            if (is_live c t (fst e) && str_mem (fst q) (clisted c))%bool then
-                              match o with
-                              | Acquire u' i' _ => if (String.eqb (fst q) u' && String.eqb (fst e) i')%bool then true
-                                                   else opt_eqb Z.eqb (cnt_of (fst q) (fst e) (ocnts b)) (Some (snd e))
-                              | _ => opt_eqb Z.eqb (cnt_of (fst q) (fst e) (ocnts b)) (Some (snd e))
-                              end
-                            else true) (fst (snd q))) (ocnts (cprev c)))%bool.
+   && live_cnt_ok c t o (ocnts (cprev c)) (ocnts b)
+   && live_cnt_ok c t o (ocnts2 (cprev c)) (ocnts2 b))%bool.
 
+(* no in-flight counted for the instance on ANY flow control *)
 Definition no_count (i : string) (b : obs) : bool :=
-  forallb (fun q : string * fcst => negb (str_mem i (map fst (fst (snd q))))) (ocnts b).
+  (forallb (fun q : string * fcst => negb (str_mem i (map fst (fst (snd q))))) (ocnts b)
+   && forallb (fun q : string * fcst => negb (str_mem i (map fst (fst (snd q))))) (ocnts2 b)
+   && (oother b =? 0))%bool.
 
 Definition has_cond (i : string) (l : list (key * cnd)) : bool :=
   existsb (fun p : key * cnd => String.eqb (snd (fst p)) i) l.
@@ -137,6 +146,6 @@ Fixpoint hist_go (c : ctx) (l : list (op * obs)) : list bool :=
   | (o, b) :: r => and_lists (step_ok c o b) (hist_go (next_ctx c o b) r)
   end.
 
-Definition obs0 (u : list string) : obs := mkObs RNil [] [] [] (map (fun x => (x, ([], 0))) u) [] [].
+Definition obs0 (u : list string) : obs := mkObs RNil [] [] [] (map (fun x => (x, ([], 0))) u) [] [] (map (fun x => (x, ([], 0))) u) 0.
 Definition hist_ok (u : list string) (l : list (op * obs)) : list bool :=
   hist_go (mkCtx 0 [] [] [] [] [] u (obs0 u)) l.
